@@ -6,7 +6,8 @@
    prints every accepted (shape, data length) whose unbounded product differs as a CANDIDATE.
 2. vh-load fuzz: valid ONNX and .rten models x structured mutations (every dtype and data source, dims 2^31,
    2^32, 2^63-1, negative, products wrapping to 0 or to the data length, the scaled TLC candidates, shape/data
-   mismatches, header fields and data offsets at every boundary) + seeded flips/truncations, loaded through
+   mismatches, header fields and data offsets at every boundary, consistently inflated chains of nested protobuf
+   lengths: one field declares 2^31..2^64-1 bytes and all its ancestors agree) + seeded flips/truncations, loaded through
    Model::load / load_file / load_mmap in child processes (CPU-time + address-space limits); every constant
    of a loaded model is reported through Model::verif_graph(); bounded smoke run.
    Both builds of the harness run the corpus: cargo profile `release` (overflow checks off) and `checked`
@@ -118,6 +119,11 @@ def finish(ctx, runs):
     ctx.cov["load_errors"] = st.get("errors", 0)
     ctx.cov["constants_checked"] = st.get("constants", 0)
     ctx.cov["smoke_runs"] = {k: st.get("runs_" + k, 0) for k in ("ok", "err", "panic", "other")}
+    ctx.cov["loads_over_alloc_bound"] = st.get("alloc_over", 0)
+    if st.get("alloc_over", 0):
+        ctx.drift("%d load(s) requested a single allocation larger than Loader!LoadAllocBound(n) = 64n + 16 MiB: memory "
+                  "reserved in proportion to a declared length rather than to the bytes present (not a violation of the "
+                  "property text unless it ends in an abort or panic)" % st["alloc_over"])
     if st.get("runs_panic", 0) or st.get("runs_other", 0):
         ctx.cov["notes"].append(
             "smoke runs of loaded models: %d panicked, %d aborted/timed out (counted, not judged by C05 unless a memory fault)"
